@@ -34,10 +34,10 @@ func (r *OblResult) OK() bool {
 }
 
 type SolveOpts struct {
-	TimeoutS int    // per obligation
-	CacheDir string // "" = no cache
-	TmpDir   string
-	Sem      chan struct{} // global concurrency limiter
+	TimeoutS  int    // per obligation
+	CacheDir  string // "" = no cache
+	TmpDir    string
+	Sem       chan struct{} // global concurrency limiter
 	TwoSolver bool
 }
 
@@ -191,53 +191,89 @@ func Solve(tr *TargetResult, opts *SolveOpts) []*OblResult {
 				status, raw, solver string
 				dur                 float64
 			}
-			ch := make(chan ans, len(solvers))
-			for _, s := range solvers {
-				s := s
-				go func() {
-					opts.acquire()
-					defer opts.release()
-					if ctx.Err() != nil {
-						ch <- ans{"timeout", "", s.name, 0}
-						return
-					}
-					st, raw, d := runSolver(ctx, s, qf, opts.TimeoutS)
-					ch <- ans{st, raw, s.name, d}
-				}()
-			}
 			best := ans{status: "unknown"}
 			var raws []string
-			for k := 0; k < len(solvers); k++ {
-				a := <-ch
-				raws = append(raws, fmt.Sprintf("[%s %.1fs] %s", a.solver, a.dur, firstLines(a.raw, 3)))
-				if a.status == "unsat" {
-					best = a
-					cancel()
+			// A timeout is retried once with four times the budget: by then the fast
+			// obligations have left the machine, so a goal that is merely slow under load is
+			// still discharged; only a goal no solver decides in that time stays undischarged.
+			budgets := []int{opts.TimeoutS, 4 * opts.TimeoutS}
+			if o.Cover {
+				budgets = budgets[:1]
+			}
+			for round, budget := range budgets {
+				if round > 0 && best.status != "timeout" && best.status != "unknown" {
 					break
 				}
-				if a.status == "sat" && best.status != "sat" {
-					best = a
-					if o.Cover {
+				ch := make(chan ans, len(solvers))
+				for _, s := range solvers {
+					s := s
+					go func() {
+						opts.acquire()
+						defer opts.release()
+						if ctx.Err() != nil {
+							ch <- ans{"timeout", "", s.name, 0}
+							return
+						}
+						st, raw, d := runSolver(ctx, s, qf, budget)
+						ch <- ans{st, raw, s.name, d}
+					}()
+				}
+				for k := 0; k < len(solvers); k++ {
+					a := <-ch
+					raws = append(raws, fmt.Sprintf("[%s %.1fs] %s", a.solver, a.dur, firstLines(a.raw, 3)))
+					if a.status == "unsat" {
+						best = a
 						cancel()
 						break
 					}
-					// a sat answer from one solver on a quantifier-free query is final
-					if !strings.Contains(base, "(forall") {
-						cancel()
-						break
+					if a.status == "sat" && best.status != "sat" {
+						best = a
+						if o.Cover {
+							cancel()
+							break
+						}
+						// a sat answer from one solver on a quantifier-free query is final
+						if !strings.Contains(base, "(forall") {
+							cancel()
+							break
+						}
 					}
-				}
-				if best.status == "unknown" && a.status == "timeout" {
-					best = a
-				}
-				if best.status == "unknown" && a.status == "error" && best.solver == "" {
-					best = a
+					if best.status == "unknown" && a.status == "timeout" {
+						best = a
+					}
+					if best.status == "unknown" && a.status == "error" && best.solver == "" {
+						best = a
+					}
 				}
 			}
 			r.Status, r.Solver, r.Time = best.status, best.solver, best.dur
 			r.Raw = strings.Join(raws, "\n")
 			if best.status == "sat" {
 				r.Model = parseValues(best.raw)
+				// prefer a counterexample with short slices: it can be replayed on the real code
+				var small []string
+				for _, n := range names {
+					if strings.Contains(n, ".len!") {
+						small = append(small, "(assert (bvule "+n+" (_ bv16 64)))\n")
+					}
+				}
+				if len(small) > 0 && !o.Cover {
+					sf := filepath.Join(opts.TmpDir, fmt.Sprintf("s_%s_%d.smt2", tag, i))
+					os.WriteFile(sf, []byte(base+strings.Join(small, "")+q.String()[len(base):]), 0o644)
+					for _, s := range solvers[:2] {
+						opts.acquire()
+						st, raw, _ := runSolver(context.Background(), s, sf, 5)
+						opts.release()
+						if st == "sat" {
+							if m := parseValues(raw); len(m) > 0 {
+								r.Model = m
+								r.Raw += "\n[" + s.name + ", slices of at most 16 elements] " + firstLines(raw, 3)
+								break
+							}
+						}
+					}
+					os.Remove(sf)
+				}
 			}
 		}()
 	}
@@ -312,4 +348,61 @@ func parseValues(raw string) map[string]string {
 		}
 	}
 	return m
+}
+
+// CrossCheck (thorough tier) puts every discharged obligation to the solvers that did
+// not discharge it. It returns how many obligations a second, independent solver also
+// found unsat, how many no second solver decided within the budget, and the names of
+// the obligations on which a second solver answered sat on a quantifier-free query
+// (a solver disagreement: the proof is not believed).
+func CrossCheck(tr *TargetResult, results []*OblResult, opts *SolveOpts, budget int) (agreed, undecided int, conflicts []string) {
+	type out struct {
+		agreed   bool
+		conflict string
+	}
+	outs := make([]out, len(results))
+	var wg sync.WaitGroup
+	tag := hashOf(tr.Name, tr.Script)[:12]
+	qf := !strings.Contains(tr.Script, "(forall")
+	for i, r := range results {
+		if r == nil || r.Obl.Cover || r.Status != "unsat" {
+			continue
+		}
+		i, r := i, r
+		wg.Add(1)
+		go func() {
+			defer wg.Done()
+			file := filepath.Join(opts.TmpDir, fmt.Sprintf("x_%s_%d.smt2", tag, i))
+			os.WriteFile(file, []byte(tr.Script+"(assert "+r.Obl.Cond+")\n(check-sat)\n"), 0o644)
+			defer os.Remove(file)
+			for _, s := range solvers {
+				if s.name == r.Solver || outs[i].agreed {
+					continue
+				}
+				opts.acquire()
+				st, _, _ := runSolver(context.Background(), s, file, budget)
+				opts.release()
+				if st == "unsat" {
+					outs[i].agreed = true
+				} else if st == "sat" && qf && !strings.Contains(r.Obl.Cond, "(forall") {
+					outs[i].conflict = fmt.Sprintf("%s: %s says unsat, %s says sat", r.Obl.Name, r.Solver, s.name)
+				}
+			}
+		}()
+	}
+	wg.Wait()
+	for i, r := range results {
+		if r == nil || r.Obl.Cover || r.Status != "unsat" {
+			continue
+		}
+		switch {
+		case outs[i].conflict != "":
+			conflicts = append(conflicts, outs[i].conflict)
+		case outs[i].agreed:
+			agreed++
+		default:
+			undecided++
+		}
+	}
+	return
 }
